@@ -60,7 +60,21 @@ def pattern_ok(t):
     return all(pattern_ok(c) for c in t.children())
 
 
-def choose_patterns(vars_, body):
+def _mentions(t, ids, memo):
+    k = t.get_id()
+    if k in memo:
+        return memo[k]
+    if z3.is_const(t):
+        r = k in ids
+    elif z3.is_app(t):
+        r = any(_mentions(c, ids, memo) for c in t.children())
+    else:
+        r = False
+    memo[k] = r
+    return r
+
+
+def choose_patterns(vars_, body, outer_ids=None):
     varset = {v.get_id() for v in vars_}
     out = []
     _collect(body, varset, out, {})
@@ -77,6 +91,13 @@ def choose_patterns(vars_, body):
         return len(t.sexpr())
     cands.sort(key=lambda c: size(c[0]))
     full = [t for t, vs in cands if vs == allv]
+    if outer_ids:
+        # inside another quantifier: triggers that also mention the enclosing bound variables fire only for the instance at
+        # hand; triggers that do not would fire for every instance of the enclosing quantifier x every ground term
+        memo = {}
+        tied = [t for t in full if _mentions(t, outer_ids, memo)]
+        if tied:
+            full = tied
     minimal = []
     for t in full:
         if not any(_contains(t, m) for m in minimal):
@@ -277,6 +298,11 @@ class CallMixin:
             raise Unsupported("dict(...) with arguments")
         return self.new_record(st)
 
+    def bi_np_zeros(self, args, kwargs, st, spec):
+        n = self.to_int(args[0])
+        self.ctx.models_used.add("np.zeros(n): a fresh sequence of n zeros (1-D arrays are modelled as lists of reals)")
+        return self.new_list(REAL, z3.K(z3.IntSort(), z3.RealVal(0)), z3.If(n >= 0, n, 0), st)
+
     def bi_np_round(self, args, kwargs, st, spec):
         d = kwargs.get("decimals", args[1] if len(args) > 1 else mk_int(0))
         return self.bi_round([args[0], d], {}, st, spec)
@@ -345,12 +371,14 @@ class CallMixin:
         st.bound = dict(saved)
         self.bind_target(gen.target, SV(e, arr[_ix(i, off)]), st, bound=True)
         st.qdepth += 1
+        st.qids.add(i.get_id())
         try:
             conds = [self.truthy(self.ev(c, st, spec), st) for c in gen.ifs]
             body = self.truthy(self.ev(node.elt, st, spec), st)
         finally:
             st.bound = saved
             st.qdepth -= 1
+            st.qids.discard(i.get_id())
         rng = z3.And(0 <= i, i < ln, *conds)
         if is_all:
             return mk_bool(z3.ForAll([i], z3.Implies(rng, body)))
@@ -368,12 +396,17 @@ class CallMixin:
         elems = [SV(s[0], s[1][_ix(j, s[2])]) for s in seqs]
         saved = st.bound
         st.bound = dict(saved)
+        outer_q = st.qdepth
         st.qdepth += 1
+        st.qids.add(j.get_id())
         try:
             r = self.apply(m.fn, elems, {}, st, spec)
         finally:
             st.bound = saved
             st.qdepth -= 1
+            st.qids.discard(j.get_id())
+        if outer_q > 0:
+            raise Unsupported("list(map(...)) inside a quantified specification")
         arr = self.defined_array("map", z3.ArraySort(z3.IntSort(), sort_of(r.ty)), lambda t: z3.substitute(r.t, (j, t)), st)
         return self.new_list(r.ty, arr, z3.simplify(ln), st)
 
@@ -391,15 +424,22 @@ class CallMixin:
         saved = st.bound
         st.bound = dict(saved)
         st.qdepth += 1
+        st.qids.add(j.get_id())
         try:
             self.bind_target(gen.target, elem, st, bound=True)
             r = self.ev(node.elt, st, spec)
         finally:
             st.bound = saved
             st.qdepth -= 1
+            st.qids.discard(j.get_id())
         if not is_sv(r) or r.ty.kind not in ("int", "real", "bool", "ref", "list"):
             raise Unsupported("comprehension element %r" % (r,))
-        a2 = self.defined_array("comp", z3.ArraySort(z3.IntSort(), sort_of(r.ty)), lambda t: z3.substitute(r.t, (j, t)), st)
+        if st.qdepth > 0:
+            # inside a quantifier the element expression may mention bound variables: the sequence must be a closed *term*
+            # (a lambda), never a global definition
+            a2 = z3.Lambda([j], r.t)
+        else:
+            a2 = self.defined_array("comp", z3.ArraySort(z3.IntSort(), sort_of(r.ty)), lambda t: z3.substitute(r.t, (j, t)), st)
         if spec:
             return mk_seq(r.ty, a2, z3.IntVal(0), z3.simplify(ln))
         return self.new_list(r.ty, a2, z3.simplify(ln), st)
@@ -412,11 +452,29 @@ class CallMixin:
         if e.kind != "real":
             raise Unsupported("sum over non-real list")
         f = self.sum_fun()
-        self.ctx.models_used.add("sum(list): recursive spec function seqsum (unfolded by hints)")
+        self.sum_axioms(st)
         return SV(REAL, f(arr, off, off + ln))
 
     def sum_fun(self):
         return z3.Function("seqsum", z3.ArraySort(z3.IntSort(), z3.RealSort()), z3.IntSort(), z3.IntSort(), z3.RealSort())
+
+    def sum_axioms(self, st):
+        """library model of sum(): seqsum(a, lo, hi) = a[lo] + ... + a[hi-1]; the facts used are the empty sum, the step and
+        congruence (it depends only on the elements in [lo, hi)) -- assumed, listed in the evidence"""
+        f = self.sum_fun()
+        srt = z3.ArraySort(z3.IntSort(), z3.RealSort())
+        a, b = z3.Const("sa", srt), z3.Const("sb", srt)
+        lo, hi, lo2, i = z3.Ints("slo shi slo2 si")
+        axs = [z3.ForAll([a, lo, hi], z3.Implies(hi <= lo, f(a, lo, hi) == 0), patterns=[f(a, lo, hi)]),
+               z3.ForAll([a, lo, hi], z3.Implies(hi > lo, f(a, lo, hi) == f(a, lo, hi - 1) + a[hi - 1]), patterns=[f(a, lo, hi)]),
+               z3.ForAll([a, b, lo, hi],
+                         z3.Implies(z3.ForAll([i], z3.Implies(z3.And(lo <= i, i < hi), a[i] == b[i]), qid="sumcong_inner"),
+                                    f(a, lo, hi) == f(b, lo, hi)),
+                         patterns=[z3.MultiPattern(f(a, lo, hi), f(b, lo, hi))], qid="sumcong")]
+        for ax in axs[2:]:
+            if not any(ax.eq(p) for p in st.pc):
+                st.assume(ax)
+        self.ctx.models_used.add("sum(list) = seqsum: congruence axiom (depends only on the summed elements); step axioms via unfold hints")
 
     # ---- sorting: the result is a permutation (ghost bijection pi / inverse sigma) ordered by the key
     def sorted_model(self, src, keyfn, st, reverse=False, cmp=None):
@@ -438,6 +496,7 @@ class CallMixin:
         saved = st.bound
         st.bound = dict(saved)
         st.qdepth += 1
+        st.qids.update((i.get_id(), j.get_id()))
         try:
             if keyfn is not None:
                 ki = self.apply(keyfn, [SV(e, R[i])], {}, st, True)
@@ -453,6 +512,7 @@ class CallMixin:
         finally:
             st.bound = saved
             st.qdepth -= 1
+            st.qids.difference_update((i.get_id(), j.get_id()))
         st.assume(z3.ForAll([i, j], z3.Implies(z3.And(0 <= i, i <= j, j < n), order), patterns=[z3.MultiPattern(R[i], R[j])]))
         self.ctx.models_used.add("sorted/sort: result is a permutation of the input (ghost bijection) ordered by the key; stability not modelled")
         st.env["_perm"] = mk_seq(INT, pi, z3.IntVal(0), n)
@@ -721,11 +781,13 @@ class CallMixin:
             st.bound = dict(saved)
             st.bound["_j"] = mk_int(j)
             st.qdepth += 1
+            st.qids.add(j.get_id())
             try:
                 m = self.elem_match(SV(e, arr[j]), x, st)
             finally:
                 st.bound = saved
                 st.qdepth -= 1
+                st.qids.discard(j.get_id())
             st.assume(z3.ForAll([j], z3.Implies(z3.And(0 <= j, j < i), z3.Not(m)), patterns=[arr[j]] if pattern_ok(arr) else []))
             st.env["_removed_index"] = mk_int(i)
             self.list_delete(lst, i, st)
@@ -735,11 +797,13 @@ class CallMixin:
         st.bound = dict(saved)
         st.bound["_j"] = mk_int(j)
         st.qdepth += 1
+        st.qids.add(j.get_id())
         try:
             m = self.elem_match(SV(e, arr[j]), x, st)
         finally:
             st.bound = saved
             st.qdepth -= 1
+            st.qids.discard(j.get_id())
         st.assume(z3.ForAll([j], z3.Implies(z3.And(0 <= j, j < n), z3.Not(m)), patterns=[arr[j]] if pattern_ok(arr) else []))
         raise RaiseSig("ValueError", self.ctx.cur_line)
 
@@ -750,22 +814,33 @@ class CallMixin:
         # python: negative positions count from the end, clamped
         p = z3.If(p < 0, z3.If(l1 + p < 0, 0, l1 + p), z3.If(p > l1, l1, p))
         v = self.coerce(v, e, st)
-        j = z3.Int("j!ins")
-        arr = z3.Lambda([j], z3.If(j < p, arr1[j], z3.If(j == p, v.t, arr1[j - 1])))
+        arr = self.defined_array("ins", arr1.sort(), lambda j: z3.If(j < p, arr1[j], z3.If(j == p, v.t, arr1[j - 1])), st, also=[arr1],
+                                 rng=(z3.IntVal(0), l1 + 1))
         self.list_set_content(lst, arr, l1 + 1, st)
         return mk_none()
 
     def list_delete(self, lst, idx, st):
         e, arr1, off1, l1 = self.seq_of(lst, st)
-        arr = self.defined_array("del", arr1.sort(), lambda j: z3.If(j < idx, arr1[j], arr1[j + 1]), st, also=[arr1])
+        arr = self.defined_array("del", arr1.sort(), lambda j: z3.If(j < idx, arr1[j], arr1[j + 1]), st, also=[arr1],
+                                 rng=(z3.IntVal(0), l1))
         self.list_set_content(lst, arr, l1 - 1, st)
 
-    def defined_array(self, base, sort, fn, st, also=()):
+    def defined_array(self, base, sort, fn, st, also=(), rng=None):
         """fresh array constant with a quantified definition (E-matching handles this better than lambda terms);
-        the definition is triggered by reads of the new array and of the source arrays"""
+        the definition is triggered by reads of the new array and, when `also` is given, of the source arrays.  With source
+        triggers the definition is restricted to the index range rng = (lo, hi): shifted definitions (delete / insert) would
+        otherwise feed a matching loop (a[j] -> a[j-1] -> ...); values outside the list are never meaningful anyway."""
+        if st.qdepth > 0:
+            raise Unsupported("array definition inside a quantified specification (would capture bound variables)")
         a = self.ctx.fresh(base, sort)
         j = self.ctx.fresh("j", z3.IntSort())
-        st.assume(z3.ForAll([j], a[j] == fn(j), patterns=[a[j]] + [b[j] for b in also if pattern_ok(b)]))
+        body = a[j] == fn(j)
+        extra = [b[j] for b in also if pattern_ok(b)]
+        if rng is not None:
+            body = z3.Implies(z3.And(rng[0] <= j, j < rng[1]), body)
+        else:
+            extra = []
+        st.assume(z3.ForAll([j], body, patterns=[a[j]] + extra, qid="def_%s" % a))
         return a
 
     # ------------------------------------------------------------------ spec builtins
@@ -786,6 +861,7 @@ class CallMixin:
             for i, n in enumerate(names):
                 v = self.ctx.fresh(n, z3.IntSort())
                 vars_.append(v)
+                st.qids.add(v.get_id())
                 st.bound[n] = mk_int(v)
                 if i < len(rest):
                     r = rest[i]
@@ -801,23 +877,43 @@ class CallMixin:
                     else:
                         raise Unsupported("quantifier range")
             body = self.truthy(self.ev(lam.body, st, True), st)
+            # optional explicit trigger:  forall(lambda i, j: ..., ranges..., trig=lambda i, j: (t1, t2))
+            explicit = None
+            for kw in node.keywords:
+                if kw.arg == "trig":
+                    tv = self.ev(kw.value.body if isinstance(kw.value, ast.Lambda) else kw.value, st, True)
+                    terms = [x.t for x in (tv.t if tv.ty.kind == "tuple" else [tv])]
+                    if all(pattern_ok(t) for t in terms):
+                        explicit = [z3.MultiPattern(*terms)] if len(terms) > 1 else terms
         finally:
             st.bound = saved
             st.qdepth -= 1
+            for v in vars_:
+                st.qids.discard(v.get_id())
         rng = z3.And(*ranges) if ranges else z3.BoolVal(True)
+        if explicit:
+            q = z3.ForAll if is_forall else z3.Exists
+            return mk_bool(q(vars_, z3.Implies(rng, body) if is_forall else z3.And(rng, body), patterns=explicit,
+                             qid="qx_%s" % "_".join(str(v) for v in vars_)))
+        outer = set()
+        if st.qdepth > 0:
+            for v in saved.values():
+                if is_sv(v) and z3.is_expr(v.t) and z3.is_const(v.t) and v.t.decl().kind() == z3.Z3_OP_UNINTERPRETED:
+                    outer.add(v.t.get_id())
         if is_forall:
-            return mk_bool(self.mk_forall(vars_, z3.Implies(rng, body)))
-        return mk_bool(self.mk_exists(vars_, z3.And(rng, body)))
+            return mk_bool(self.mk_forall(vars_, z3.Implies(rng, body), outer))
+        return mk_bool(self.mk_exists(vars_, z3.And(rng, body), outer))
 
-    def mk_forall(self, vars_, body):
-        pats = choose_patterns(vars_, body)
+    def mk_forall(self, vars_, body, outer_ids=None):
+        pats = choose_patterns(vars_, body, outer_ids)
+        qid = "q_%s" % "_".join(str(v) for v in vars_)
         if pats:
-            return z3.ForAll(vars_, body, patterns=pats)
-        return z3.ForAll(vars_, body)
+            return z3.ForAll(vars_, body, patterns=pats, qid=qid)
+        return z3.ForAll(vars_, body, qid=qid)
 
-    def mk_exists(self, vars_, body):
+    def mk_exists(self, vars_, body, outer_ids=None):
         # an existential in a hypothesis is skolemised; in a goal it becomes a universal after negation
-        pats = choose_patterns(vars_, body)
+        pats = choose_patterns(vars_, body, outer_ids)
         if pats:
             return z3.Exists(vars_, body, patterns=pats)
         return z3.Exists(vars_, body)
@@ -854,6 +950,7 @@ class CallMixin:
         tmp.loops = st.loops
         tmp.call_pre = st.call_pre
         tmp.qdepth = st.qdepth
+        tmp.qids = st.qids
         return self.ev(node, tmp, True)
 
     def spec_old(self, node, st):
@@ -915,7 +1012,8 @@ class CallMixin:
         old_l = snap.heap.get(lk, self.ctx.initial_array(lk, self.heap_sort(lk)))
         i = self.ctx.fresh("i", z3.IntSort())
         return mk_bool(z3.And(cur_l[lst.t] == old_l[lst.t],
-                              z3.ForAll([i], z3.Implies(z3.And(0 <= i, i < cur_l[lst.t]), cur_c[lst.t][i] == old_c[lst.t][i]))))
+                              z3.ForAll([i], z3.Implies(z3.And(0 <= i, i < cur_l[lst.t]), cur_c[lst.t][i] == old_c[lst.t][i]),
+                                        qid="unchanged_%s" % i)))
 
     def spec_unchanged(self, node, st):
         """unchanged(l): list object l has the length and elements it had at entry (at the call, inside callee posts)"""
@@ -962,12 +1060,19 @@ class CallMixin:
         e, arr, off, ln = self.seq_of(v, st, True)
         lo = self.to_int(self.ev(node.args[1], st, True)) if len(node.args) > 1 else z3.IntVal(0)
         hi = self.to_int(self.ev(node.args[2], st, True)) if len(node.args) > 2 else ln
-        return SV(REAL, self.sum_fun()(arr, off + lo, off + hi))
+        self.sum_axioms(st)
+        return SV(REAL, self.sum_fun()(arr, z3.simplify(off + lo), z3.simplify(off + lo + (hi - lo))))
 
     def spec_fdiv(self, node, st):
         a = self.to_real(self.ev(node.args[0], st, True))
         b = self.to_real(self.ev(node.args[1], st, True))
         return SV(REAL, self.fdiv_fun()(a, b))
+
+    def spec_owner(self, node, st):
+        """owner(r): ghost ownership map (which object a list / dict currently belongs to); updated by ghost `set_owner`"""
+        v = self.ev(node.args[0], st, True)
+        arr = st.harr("$owner", z3.ArraySort(z3.IntSort(), z3.IntSort()))
+        return SV(Ty("ref", "object"), arr[v.t])
 
     def spec_is_inf(self, node, st):
         v = self.coerce(self.ev(node.args[0], st, True), EXT, st)
@@ -1017,6 +1122,8 @@ class CallMixin:
         if key.endswith("?"):
             return z3.ArraySort(z3.IntSort(), z3.BoolSort())
         if key.endswith("!s"):
+            return z3.ArraySort(z3.IntSort(), z3.IntSort())
+        if key == "$owner":
             return z3.ArraySort(z3.IntSort(), z3.IntSort())
         if key.startswith("$cv."):
             _, c, f = key.split(".")
@@ -1118,7 +1225,10 @@ class CallMixin:
                 if result is not None:
                     env2["result"] = result
                 st.env = env2
+                skip = self.contract.options.get("skip_ensures", {}).get(con.qualname, ())
                 for e in con.ensures:
+                    if any(sub in e for sub in skip):
+                        continue        # the caller does not need this clause (dropping an assumption is always sound)
                     st.assume(self.truthy(self.spec_text(e, st), st))
             else:
                 exc = list(con.raises)[outcome - 1]
@@ -1180,7 +1290,7 @@ class CallMixin:
                 cur = st.harr(key, self.heap_sort(key))
                 fr = ctx.fresh("new_" + key, cur.sort())
                 r = ctx.fresh("r", z3.IntSort())
-                st.assume(z3.ForAll([r], z3.Implies(r < old_alloc, fr[r] == cur[r]), patterns=[fr[r]]))
+                st.assume(z3.ForAll([r], z3.Implies(r < old_alloc, fr[r] == cur[r]), patterns=[fr[r]], qid="allocframe_%s" % fr))
                 st.hset(key, fr)
         for m in con.modifies:
             self.havoc_clause(m, st, pre)
@@ -1199,6 +1309,29 @@ class CallMixin:
                 st.hset(key, ctx.fresh("hv_" + key, cur.sort()))
             return
         node = ast.parse(m, mode="eval").body
+        if isinstance(node, ast.Call) and isinstance(node.func, ast.Name) and node.func.id == "listof":
+            # listof(each(L).f): contents and lengths of the lists stored in field f of the elements of L (pre-state)
+            inner = node.args[0]
+            tmp = self._pre_state(st, pre)
+            lst = self.ev(inner.value.args[0], tmp, True)
+            e, arr, off, ln = self.seq_of(lst, tmp, True)
+            key, fty = self.field_key(e.arg, inner.attr)
+            farr = tmp.harr(key, self.heap_sort(key))
+            ety = fty.arg
+            r = z3.Int("r!lo")
+            # membership through a witness function (skolemised "exists i"): avoids a quantifier nested in the frame axiom
+            pos = z3.Function("pos!%d" % ctx.counter, z3.IntSort(), z3.IntSort())
+            ctx.counter += 1
+            member = lambda rr: z3.And(0 <= pos(rr), pos(rr) < ln, farr[arr[_ix(pos(rr), off)]] == rr)
+            for kk in (self.content_key(ety), self.len_key(ety)):
+                cur = st.harr(kk, self.heap_sort(kk))
+                fr = ctx.fresh("hv_" + kk, cur.sort())
+                a_pre = pre.heap.get("$alloc", ctx.initial_array("$alloc"))
+                # nothing is claimed for objects allocated after the call started (r >= a_pre): this also stops the frame
+                # axiom from chaining through the fresh lists the callee hands back
+                st.assume(z3.ForAll([r], z3.Or(r >= a_pre, member(r), fr[r] == cur[r]), patterns=self.frame_patterns(fr, cur, r), qid="listofframe_%s" % fr))
+                st.hset(kk, fr)
+            return
         # list(expr): content and length of one list object
         if isinstance(node, ast.Call) and isinstance(node.func, ast.Name) and node.func.id == "list":
             tmp = self._pre_state(st, pre)
@@ -1229,6 +1362,11 @@ class CallMixin:
             return
         raise Unsupported("modifies clause %r" % m)
 
+    def frame_patterns(self, fr, cur, r):
+        """a frame axiom  'fr[r] == cur[r] unless r is a written location'  fires when BOTH versions of the array are read at r
+        (reading only the new version must not enumerate the written set: that feeds a matching loop through the witness index)"""
+        return [fr[r]]
+
     def _pre_state(self, st, pre):
         tmp = State(self.ctx)
         tmp.env = dict(pre.env)
@@ -1244,8 +1382,9 @@ class CallMixin:
         cname = e.arg
         # follow intermediate fields (e.g. each(L).features.k): membership of r in {x.features | x in L}
         r = z3.Int("r!each")
-        i = z3.Int("i!each")
-        member_elem = lambda rr: z3.Exists([i], z3.And(0 <= i, i < ln, arr[_ix(i, off)] == rr))
+        pos = z3.Function("pos!%d" % ctx.counter, z3.IntSort(), z3.IntSort())
+        ctx.counter += 1
+        member_elem = lambda rr: z3.And(0 <= pos(rr), pos(rr) < ln, arr[_ix(pos(rr), off)] == rr)
         if len(path) == 1:
             key, ty = self.field_key(cname, path[0])
             member = member_elem
@@ -1253,12 +1392,13 @@ class CallMixin:
             k1, t1 = self.field_key(cname, path[0])
             a1 = tmp.harr(k1, self.heap_sort(k1))
             key, ty = self.field_key(t1.arg, path[1])
-            member = lambda rr: z3.Exists([i], z3.And(0 <= i, i < ln, a1[arr[_ix(i, off)]] == rr))
+            member = lambda rr: z3.And(0 <= pos(rr), pos(rr) < ln, a1[arr[_ix(pos(rr), off)]] == rr)
         keys = [key] + ([key + "?"] if ty.kind == "opt" else []) + ([key + "!s"] if ty.kind == "ext" else [])
         for kk in keys:
             cur = st.harr(kk, self.heap_sort(kk))
             fr = ctx.fresh("hv_" + kk, cur.sort())
-            st.assume(z3.ForAll([r], z3.Implies(z3.Not(member(r)), fr[r] == cur[r])))
+            a_pre = tmp.heap.get("$alloc", ctx.initial_array("$alloc"))
+            st.assume(z3.ForAll([r], z3.Or(r >= a_pre, member(r), fr[r] == cur[r]), patterns=self.frame_patterns(fr, cur, r), qid="eachframe_%s" % fr))
             st.hset(kk, fr)
 
     # ------------------------------------------------------------------ constructors
